@@ -9,9 +9,11 @@ import (
 	"flag"
 	"fmt"
 	"math/rand"
+	"net"
 	"os"
 	"runtime/debug"
 	"strings"
+	"time"
 )
 
 // Engine is one correspondence engine.
@@ -41,7 +43,7 @@ func (o *Out) Fail(prop, clause, detail string) {
 	fmt.Fprintf(o.w, "ORACLE FAIL %s %s case=%s %s\n", prop, clause, o.caseName, detail)
 }
 
-func (o *Out) Count(k string) { o.Stats[k]++ }
+func (o *Out) Count(k string)      { o.Stats[k]++ }
 func (o *Out) Add(k string, n int) { o.Stats[k] += n }
 
 // Main is the entry point of a per-engine binary `h-<engine>`:
@@ -121,4 +123,18 @@ func firstFrames(s string) string {
 		}
 	}
 	return strings.Join(keep, " <- ")
+}
+
+// ListenRetry is net.Listen that waits out a transient failure (ephemeral ports exhausted by
+// connections in TIME_WAIT when many engines share a loaded machine) instead of failing at once.
+func ListenRetry(network, addr string) (net.Listener, error) {
+	var ln net.Listener
+	var err error
+	for i := 0; i < 150; i++ {
+		if ln, err = net.Listen(network, addr); err == nil {
+			return ln, nil
+		}
+		time.Sleep(time.Duration(20+10*i) * time.Millisecond)
+	}
+	return nil, err
 }
